@@ -104,6 +104,13 @@ def run(chk):
                 crlf.append(('file', 'package main' + nl + '/* ' + body + ' */ var x = ' + errtok + nl))
                 crlf.append(('file', 'package main' + nl + 'func f() {' + nl + '\ts := `' + body + '`; t := ' + errtok + nl + '}' + nl))
     cases += crlf
+    # the unexpected token itself long and multi-byte, at every byte alignment (the error text quotes it)
+    LONG = ['"こんにちは、世界。長いメッセージをここに書きます"', 'こんにちは世界のみなさんこんにちは', '`é è ê ë à â ä ù û ü î ï ô ö ç é è ê`', "'世'", '"' + 'é' * 40 + '"', 'x' * 70, '"' + 'a' * 31 + '世界"', '12345678901234567890123456789012345']
+    for lt in LONG:
+        for pad in ('', 'a', 'ab', 'abc'):
+            cases.append(('file', 'package p\nvar v = f("%s" %s)\n' % (pad, lt)))
+            cases.append(('expr', 'f(x%s %s)' % (pad, lt)))
+            cases.append(('stmt', 'x%s := 1 %s' % (pad, lt)))
     # multi-line type parameter lists (backtracking) before an error
     for k in range(1, 6):
         cases.append(('file', 'package p\n' + 'type T[P\nany,\nQ any] int\n' * k + 'var x = )\n'))
